@@ -108,6 +108,15 @@ META = {
         rule="run = one tape: scenario family; (A) modes, message type, write sizes per direction, read buffer sizes, pipe knobs, who closes; (B/C) role, ending kind and code, messages with fragmentation, read buffer; (D) role, 1-6 steps from {round trip, idle read/write/both deadline with duration -1h..30s and reset kind, future deadline} and a terminal {none, active read, active write} with 1 ms..10 s. Non-trivial = every run; distinct = distinct event-log SHA-256.",
         real=REAL + ["NetConn adapter"], stub=STUB + RAW, assumptions=COMMON_ASSUME,
     ),
+    "C08": dict(
+        level="exploration",
+        level_text="Seeded simulation of one real endpoint (either role, every negotiated parameter set) receiving from a scripted raw peer 1-3 messages whose sizes sit around the current read limit (limit-1, limit, limit+1, 2x, 10x, random below) for limits {default 32768, 0, 1, 125, 126, 4096, 65536, 1 MiB, -1}, optionally changed between messages, in any fragmentation, compressed or not; plus a compressed 8 MiB message of zeros (ratio > 1000:1) and frames declaring up to 2^63-1 bytes followed by a few KiB and EOF or a stall; through Read, Reader with small buffers, wsjson.Read and NetConn.Read (which must not limit). Oracle: <= limit delivered intact, > limit never reported complete, at most limit+1 bytes handed over and a prefix of the message, Close 1009 seen by the peer; memory: runtime TotalAlloc delta over the receive phase (GC off) <= 3 MiB + 8 x bytes delivered (or deliverable under the limit). Sampling, not proof.",
+        level_note="The memory bound is far above legitimate fixed costs (flate reader ~40 KiB, bufio 4 KiB, io.ReadAll's 1.25x growth which allocates ~5x the final size in total) and far below the declared / inflated sizes used, so it does not mirror implementation constants. Harness allocations inside the window (peer read buffers) are part of the 3 MiB slack.",
+        technique="deterministic simulation: scripted peer with sizes around the limit, compression bomb and huge declared lengths; allocation accounting as resource oracle",
+        design_ref="DESIGN.md 6 C08",
+        rule="run = one tape: (role, negotiation, reader API, limit, 1-3 message sizes relative to the limit with fragmentation and compression, limit changes, special case none/bomb/huge-declared, EOF or stall ending, chunk policy, schedule). Non-trivial = every run; distinct = distinct event-log SHA-256.",
+        real=REAL + ["wsjson", "NetConn adapter"], stub=STUB + RAW, assumptions=COMMON_ASSUME,
+    ),
 }
 
 NOT_APPLICABLE = [
